@@ -57,7 +57,8 @@ def replay(pid, path):
         g.maydiverge = False
         # block ids are tied to the original group number: keep them (they are plain integers in the grammar text)
         run = Run(pid, "quick", 0)
-        opts = [rec["options"]]
+        from rt import opt as _opt
+        opts = [_opt(**rec["options"])]          # options recorded before a field was added get its default
         div, tot = run.execute([g], [rec["input"]], opts, lambda gg: [(0, 0)], [[f for f in rec["flags"] if f != "-support-left-recursion" and not f.startswith("G") and f != "-alternate-entrypoints"]],
                                cmp=dict(ctx=(pid == "C02"), norm=("-optimize-grammar" in rec["flags"]), errs=("-optimize-grammar" not in rec["flags"])),
                                lower=rec.get("lower"), uclass=rec.get("uclass"))
